@@ -138,6 +138,10 @@ void adapter_exec(Ev *ev)
             else if (ev_is(ev, "amaux")) rc = sts_atmost_aux(&src, &snk, &b, (size_t)n);
             else if (ev_is(ev, "naux")) rc = sts_n_aux(&src, &snk, &b, (size_t)n);
             else if (ev_is(ev, "daux")) rc = sts_drain_aux(&src, &snk, &b);
+            else if (ev_is(ev, "ssts")) rc = sts_some(&src, &snk);
+            else if (ev_is(ev, "asts")) rc = sts_atmost(&src, &snk, (size_t)n);
+            else if (ev_is(ev, "nsts")) rc = sts_n(&src, &snk, (size_t)n);
+            else if (ev_is(ev, "dsts")) rc = sts_drain(&src, &snk);
             else { fprintf(stderr, "endp: unknown op %s\n", ev->name); exit(2); }
         }
         obs(ev, rc); obs(ev, s.pos);
